@@ -81,11 +81,16 @@ class EnvironmentVariables(HoldableObject):
         return repr_str.format(self.__class__.__name__, self.envvars)
 
     def hash(self, hasher: _Hash) -> None:
-        myenv = self.get_env({})
-        for key in sorted(myenv.keys()):
-            hasher.update(bytes(key, encoding='utf-8'))
-            hasher.update(b',')
-            hasher.update(bytes(myenv[key], encoding='utf-8'))
+        # Everything that decides what a process receives: the value applied to an
+        # empty environment does not tell set from append, nor one separator from another
+        for method, name, values, separator in self.envvars:
+            for part in (method.__name__, name, separator, *values):
+                hasher.update(bytes(part, encoding='utf-8'))
+                hasher.update(b'\0')
+            hasher.update(b';')
+        for name in sorted(self.unset_vars):
+            hasher.update(b'unset\0')
+            hasher.update(bytes(name, encoding='utf-8'))
             hasher.update(b';')
 
     def has_name(self, name: str) -> bool:
